@@ -30,7 +30,9 @@ THEOREMS = ['C03_deepest_active_ancestor', 'C03_exit_set', 'C03_exit_below_base'
 
 def gen(rng, i, tier):
     mixed = (i % 5 == 4)
-    c = hsm.gen_case(rng, p_parallel=0.4, single_scope=not mixed, max_events=2)
+    # every 8th case: parallel states whose initial list names a strict subset of their children (a transition may
+    # then target a child that is not active while several siblings are)
+    c = hsm.gen_case(rng, p_parallel=0.4, single_scope=not mixed, max_events=2, p_subset=(0.7 if i % 8 == 5 else 0.0))
     n = [0]
 
     def fresh():
